@@ -259,6 +259,9 @@ func write(oprot *protocol, name string, fieldType int, id int16, fs []byte) (of
 		if err != nil {
 			return offset, fmt.Errorf("read struct begin error: %w", err)
 		}
+		if err = oprot.WriteStructBegin(ctx, name); err != nil {
+			return offset, fmt.Errorf("write struct begin error: %w", err)
+		}
 		for {
 			name, fieldTypeID, fieldID, l, err := Binary.ReadFieldBegin(fs[offset:])
 			offset += l
